@@ -876,6 +876,23 @@ class Executor:
             sub = Cx(None, spec=cx.spec, depth=cx.depth, root=cx.root, label=cx.label)
             sub.module = g[2]
             return self.ev(st, g[1], sub, k)
+        if self.verifying_block is not None and not cx.spec and cx.fi is not None and cx.root is cx:
+            # a local the block contract does not declare (the code around the block changed): it has SOME value of the
+            # type its first assignment in the function gives it -- arbitrary at block entry
+            for n_ in ast.walk(cx.fi.node):
+                if isinstance(n_, ast.Assign) and len(n_.targets) == 1 and isinstance(n_.targets[0], ast.Name) \
+                        and n_.targets[0].id == nm:
+                    try:
+                        ty = self.pure(st, n_.value, cx).ty
+                    except (VCError, NotPure):
+                        break
+                    if ty.kind in ('int', 'bool', 'str'):
+                        v = SV(ty, z3.Const(f'{nm}!undeclared', T.sort_of(ty)))
+                        note = f'local `{nm}` is not declared by the block contract: treated as an arbitrary {ty!r} at block entry'
+                        if note not in self.notes:
+                            self.notes.append(note)
+                        return k(st, v)
+                    break
         raise VCError(f'name {nm} is not a local, parameter or module constant (in {cx.fi.key if cx.fi else "?"})')
 
     def ev_Attribute(self, st, e, cx, k):
@@ -1315,6 +1332,10 @@ class Executor:
                                          patterns=[z3.Select(cat, jq)]))
                 s2, r = self.new_list(st, ta, n1 + n2, cat)
                 return k(s2, r)
+        if isinstance(op, ast.Mult) and {ta.kind, tb.kind} == {'str', 'int'}:
+            # text * n: an (uninterpreted, deterministic) string; only ever written out
+            s_, n_ = (a, b) if ta.kind == 'str' else (b, a)
+            return k(st, SV(STR, self.uf('str_repeat', z3.StringSort(), z3.IntSort(), z3.StringSort())(s_.z, n_.z)))
         if isinstance(op, ast.Mult) and (ta.kind == 'list' or tb.kind == 'list'):
             return self.bi.list_repeat(st, a, b, cx, node, k)
         if isinstance(op, ast.Mod) and ta.kind == 'str':
